@@ -13,6 +13,13 @@
 //     Y000:<n>          pop_n(cb, reverse_cb, n)    (compensating: pushes fillers >= 1000000 when empty)
 //     D<cwk>            drain: try_pop<c,k> until every producer thread has finished and the queue is empty
 //     A000:<ms>         let virtual time pass
+//     g<cwk>            try_pop<c,k> whose callback, holding the slot it was given, stays there until every producer thread
+//                       has finished (producers of such programs only use try_ calls, so they always finish)
+//     h<cwk>:<v>        try_push<c,k>(v) whose callback stays in its slot until every thread issuing m ops has finished
+//   a letter right after the flags picks the public overload (default: callback overload with template arguments):
+//     v value / reference   q pointer   i iterators   d callback, no template arguments   e value, no template arguments
+//     r pointer, no template arguments   j iterators, no template arguments     (the last four need flags 111 / try_: c=k=1)
+//     the per-cell monitors (excl, state, publish) need callbacks: they are off in programs that use v q i e r j
 //     H<cwk>:<v>        push<c,w,k>(v) with a slow callback: holding its index unpublished it lets virtual time pass
 //                       until a timed pop (U) has returned, as long as one is still to return
 // stdout: one line per case: <case-id> ok steps=<n> pre=<n> | <per-op results> | <monitor verdicts>
@@ -29,7 +36,7 @@ typedef ConcurrentBoundedQueue<uint64_t> Q;
 typedef Q::Iterator IT;
 
 struct Op {
-  char k = 0; int fl = 0; std::vector<uint64_t> vals; size_t n = 0; long long arg = 0;
+  char k = 0; char en = 0; int fl = 0; std::vector<uint64_t> vals; size_t n = 0; long long arg = 0;
   size_t cnt = 0; std::vector<uint64_t> popped; std::vector<uint64_t> injected;   // injected: fillers pushed by Y
   size_t pushed_cnt = 0;
   uint64_t b = 0, e = 0, t0 = 0, t1 = 0; bool done = false;
@@ -37,28 +44,32 @@ struct Op {
 struct Cell { int busy = 0; bool full = false; uint64_t val = 0; };
 
 static std::map<const void*, Cell> cells;
-static bool m_excl, m_state, m_publish;
+static bool m_excl, m_state, m_publish, cells_on;
 static uint64_t filler;
 
 static void user_point() { verif::point(verif::K_USER, 0, nullptr, "callback", 0); }
 
-static void cb_write(uint64_t& slot, uint64_t v) {
+static void cb_write(uint64_t& slot, uint64_t v, const std::function<bool()>* hold = nullptr) {
+  if (!cells_on) { user_point(); if (hold) while ((*hold)()) sched_yield(); slot = v; user_point(); return; }
   Cell& c = cells[&slot];
   if (c.busy) m_excl = false;
   if (c.full) m_state = false;          // overwriting a value nobody consumed
   c.busy++;
   user_point();
+  if (hold) while ((*hold)()) sched_yield();
   slot = v;
   c.full = true; c.val = v;
   user_point();
   c.busy--;
 }
-static uint64_t cb_read(uint64_t& slot) {
+static uint64_t cb_read(uint64_t& slot, const std::function<bool()>* hold = nullptr) {
+  if (!cells_on) { user_point(); if (hold) while ((*hold)()) sched_yield(); uint64_t v0 = slot; user_point(); return v0; }
   Cell& c = cells[&slot];
   if (c.busy) m_excl = false;
   if (!c.full) m_state = false;         // reading a cell that holds no unconsumed value
   c.busy++;
   user_point();
+  if (hold) while ((*hold)()) sched_yield();
   uint64_t v = slot;
   if (c.full && v != c.val) m_publish = false;
   user_point();
@@ -89,12 +100,13 @@ int main(int argc, char** argv) {
         while (std::getline(s2, o, ',')) {
           if (o.size() < 4) continue;
           Op op; op.k = o[0]; op.fl = (o[1] - '0') * 4 + (o[2] - '0') * 2 + (o[3] - '0');
+          if (o.size() > 4 && o[4] != ':') op.en = o[4];
           std::vector<std::string> parts; { std::stringstream s3(o); std::string p; while (std::getline(s3, p, ':')) parts.push_back(p); }
           auto list = [&](const std::string& s) { std::vector<uint64_t> r; std::stringstream s4(s); std::string x; while (std::getline(s4, x, ';')) if (!x.empty()) r.push_back(strtoull(x.c_str(), 0, 10)); return r; };
           switch (op.k) {
-            case 'P': case 'p': case 'H': op.vals = list(parts.at(1)); op.n = 1; break;
+            case 'P': case 'p': case 'H': case 'h': op.vals = list(parts.at(1)); op.n = 1; break;
             case 'N': case 'n': case 'X': if (parts.size() > 1) op.vals = list(parts[1]); op.n = op.vals.size(); break;
-            case 'O': case 'o': op.n = 1; break;
+            case 'O': case 'o': case 'g': op.n = 1; break;
             case 'M': case 'm': case 'Y': op.n = strtoul(parts.at(1).c_str(), 0, 10); break;
             case 'U': op.n = strtoul(parts.at(1).c_str(), 0, 10); op.arg = atoll(parts.at(2).c_str()); break;
             case 'A': op.arg = atoll(parts.at(1).c_str()); break;
@@ -119,18 +131,26 @@ int main(int argc, char** argv) {
       }
     }
     cells.clear(); m_excl = m_state = m_publish = true; filler = 1000000;
+    cells_on = true;
+    for (auto& th : threads) for (auto& o : th) if (o.en && strchr("vqierj", o.en)) cells_on = false;
     size_t producers = 0, producers_done = 0;
     // H = a blocking push whose callback is slow: having claimed its index it lets virtual time pass (0.1 ms at a time)
     // until a timed pop has RETURNED, as long as one is still to return.  A timed pop returns by its deadline whatever
     // the producers do, so this always ends - unless the timed pop sleeps without a deadline on the unpublished index.
     size_t u_done = 0, u_left = 0;
     for (auto& th : threads) for (auto& o : th) if (o.k == 'U') u_left++;
-    for (auto& th : threads) { bool p = false; for (auto& o : th) if (strchr("PpNnXH", o.k)) p = true; producers += p; }
+    for (auto& th : threads) { bool p = false; for (auto& o : th) if (strchr("PpNnXHh", o.k)) p = true; producers += p; }
+    size_t mthreads = 0, mthreads_done = 0;
+    for (auto& th : threads) { bool m = false; for (auto& o : th) if (o.k == 'm') m = true; mthreads += m; }
+    std::function<bool()> hold_g = [&] { return producers_done < producers; };
+    std::function<bool()> hold_h = [&] { return mthreads_done < mthreads; };
     std::vector<std::function<void()>> bodies;
     for (size_t t = 0; t < threads.size(); ++t) {
       bodies.push_back([&, t] {
         bool is_producer = false;
-        for (auto& o : threads[t]) if (strchr("PpNnXH", o.k)) is_producer = true;
+        for (auto& o : threads[t]) if (strchr("PpNnXHh", o.k)) is_producer = true;
+        bool is_mthread = false;
+        for (auto& o : threads[t]) if (o.k == 'm') is_mthread = true;
         for (size_t i = 0; i < threads[t].size(); ++i) {
           Op& op = threads[t][i];
           op.b = verif::stamp(); op.t0 = verif::now_ns();
@@ -144,7 +164,7 @@ int main(int argc, char** argv) {
           };
           auto wrn = [&](IT b, IT e) {   // all cells of the range are held at once
             std::vector<uint64_t*> ps; for (IT it = b; it != e; ++it) ps.push_back(&*it);
-            for (auto p : ps) { Cell& c = cells[p]; if (c.busy) m_excl = false; if (c.full) m_state = false; c.busy++; }
+            if (cells_on) for (auto p : ps) { Cell& c = cells[p]; if (c.busy) m_excl = false; if (c.full) m_state = false; c.busy++; }
             user_point();
             for (auto p : ps) { uint64_t v = op.vals[vi++]; *p = v; cells[p].full = true; cells[p].val = v; }
             user_point();
@@ -152,34 +172,100 @@ int main(int argc, char** argv) {
           };
           auto rdn = [&](IT b, IT e) {
             std::vector<uint64_t*> ps; for (IT it = b; it != e; ++it) ps.push_back(&*it);
-            for (auto p : ps) { Cell& c = cells[p]; if (c.busy) m_excl = false; if (!c.full) m_state = false; c.busy++; }
+            if (cells_on) for (auto p : ps) { Cell& c = cells[p]; if (c.busy) m_excl = false; if (!c.full) m_state = false; c.busy++; }
             user_point();
-            for (auto p : ps) { uint64_t v = *p; if (cells[p].full && v != cells[p].val) m_publish = false; op.popped.push_back(v); }
+            for (auto p : ps) { uint64_t v = *p; if (cells_on && cells[p].full && v != cells[p].val) m_publish = false; op.popped.push_back(v); }
             user_point();
             for (auto p : ps) { cells[p].full = false; cells[p].busy--; }
           };
+          auto rdg = [&](uint64_t& s) { op.popped.push_back(cb_read(s, &hold_g)); };
+          auto wrhh = [&](uint64_t& s) { cb_write(s, op.vals[vi++], &hold_h); };
+          uint64_t val = 0; bool okv = false;
+          std::vector<uint64_t> buf;
           switch (op.k) {
-#define CALL(C, W, K) q.push<C, W, K>(wr1)
-            case 'P': DISPATCH3(op.fl, CALL); op.cnt = 1; break;
+            case 'P':
+              switch (op.en) {
+#define CALL(C, W, K) q.push<C, W, K>(val)
+                case 'v': val = op.vals[vi++]; DISPATCH3(op.fl, CALL); break;
 #undef CALL
+                case 'd': q.push(wr1); break;
+                case 'e': val = op.vals[vi++]; q.push(val); break;
+#define CALL(C, W, K) q.push<C, W, K>(wr1)
+                default: DISPATCH3(op.fl, CALL); break;
+#undef CALL
+              }
+              op.cnt = 1; break;
 #define CALL(C, W, K) q.push<C, W, K>(wrh)
             case 'H': DISPATCH3(op.fl, CALL); op.cnt = 1; break;
 #undef CALL
+            case 'O':
+              switch (op.en) {
+#define CALL(C, W, K) q.pop<C, W, K>(val)
+                case 'v': DISPATCH3(op.fl, CALL); op.popped.push_back(val); break;
+#undef CALL
+#define CALL(C, W, K) q.pop<C, W, K>(&val)
+                case 'q': DISPATCH3(op.fl, CALL); op.popped.push_back(val); break;
+#undef CALL
+                case 'd': q.pop(rd1); break;
+                case 'e': q.pop(val); op.popped.push_back(val); break;
+                case 'r': q.pop(&val); op.popped.push_back(val); break;
 #define CALL(C, W, K) q.pop<C, W, K>(rd1)
-            case 'O': DISPATCH3(op.fl, CALL); op.cnt = 1; break;
+                default: DISPATCH3(op.fl, CALL); break;
+#undef CALL
+              }
+              op.cnt = 1; break;
+            case 'p':
+              switch (op.en) {
+#define CALL(C, W, K) okv = q.try_push<C, K>(val)
+                case 'v': val = op.vals[vi]; DISPATCH3(op.fl, CALL); if (okv) vi++; op.cnt = okv ? 1 : 0; break;
 #undef CALL
 #define CALL(C, W, K) op.cnt = q.try_push<C, K>(wr1) ? 1 : 0
-            case 'p': DISPATCH3(op.fl, CALL); break;
+                default: DISPATCH3(op.fl, CALL); break;
 #undef CALL
+              }
+              break;
+#define CALL(C, W, K) op.cnt = q.try_push<C, K>(wrhh) ? 1 : 0
+            case 'h': DISPATCH3(op.fl, CALL); break;
+#undef CALL
+            case 'o':
+              switch (op.en) {
+#define CALL(C, W, K) okv = q.try_pop<C, K>(val)
+                case 'v': DISPATCH3(op.fl, CALL); if (okv) op.popped.push_back(val); op.cnt = okv ? 1 : 0; break;
+#undef CALL
+                case 'd': op.cnt = q.try_pop(rd1) ? 1 : 0; break;
+                case 'e': okv = q.try_pop(val); if (okv) op.popped.push_back(val); op.cnt = okv ? 1 : 0; break;
 #define CALL(C, W, K) op.cnt = q.try_pop<C, K>(rd1) ? 1 : 0
-            case 'o': DISPATCH3(op.fl, CALL); break;
+                default: DISPATCH3(op.fl, CALL); break;
 #undef CALL
+              }
+              break;
+#define CALL(C, W, K) op.cnt = q.try_pop<C, K>(rdg) ? 1 : 0
+            case 'g': DISPATCH3(op.fl, CALL); break;
+#undef CALL
+            case 'N':
+              switch (op.en) {
+#define CALL(C, W, K) q.push_n<C, W, K>(buf.begin(), buf.end())
+                case 'i': buf = op.vals; DISPATCH3(op.fl, CALL); vi = op.n; break;
+#undef CALL
+                case 'd': q.push_n(wrn, op.n); break;
+                case 'j': buf = op.vals; q.push_n(buf.begin(), buf.end()); vi = op.n; break;
 #define CALL(C, W, K) q.push_n<C, W, K>(wrn, op.n)
-            case 'N': DISPATCH3(op.fl, CALL); op.cnt = op.n; break;
+                default: DISPATCH3(op.fl, CALL); break;
 #undef CALL
+              }
+              op.cnt = op.n; break;
+            case 'M':
+              switch (op.en) {
+#define CALL(C, W, K) q.pop_n<C, W, K>(buf.begin(), buf.end())
+                case 'i': buf.assign(op.n, 0); DISPATCH3(op.fl, CALL); op.popped = buf; break;
+#undef CALL
+                case 'd': q.pop_n(rdn, op.n); break;
+                case 'j': buf.assign(op.n, 0); q.pop_n(buf.begin(), buf.end()); op.popped = buf; break;
 #define CALL(C, W, K) q.pop_n<C, W, K>(rdn, op.n)
-            case 'M': DISPATCH3(op.fl, CALL); op.cnt = op.n; break;
+                default: DISPATCH3(op.fl, CALL); break;
 #undef CALL
+              }
+              op.cnt = op.n; break;
 #define CALL(C, W, K) op.cnt = q.try_push_n<C, K>(wrn, op.n)
             case 'n': DISPATCH3(op.fl, CALL); break;
 #undef CALL
@@ -232,6 +318,7 @@ int main(int argc, char** argv) {
           op.t1 = verif::now_ns(); op.e = verif::stamp(); op.done = true;
         }
         if (is_producer) producers_done++;
+        if (is_mthread) mthreads_done++;
       });
     }
     verif::Options opt; opt.seed = seed; opt.strategy = strategy; opt.max_steps = 100000; opt.spurious_futex = spurious != 0;
@@ -240,7 +327,7 @@ int main(int argc, char** argv) {
     std::vector<uint64_t> left;
     for (size_t i = 0; i < 4 * cap + 4; ++i) {
       uint64_t v = 0; bool full_before = false;
-      if (!q.try_pop<true, false>([&](uint64_t& s) { Cell& c = cells[&s]; full_before = c.full; if (!c.full) m_state = false; if (c.full && s != c.val) m_publish = false; c.full = false; v = s; })) break;
+      if (!q.try_pop<true, false>([&](uint64_t& s) { Cell& c = cells[&s]; full_before = c.full; if (cells_on && !c.full) m_state = false; if (cells_on && c.full && s != c.val) m_publish = false; c.full = false; v = s; })) break;
       left.push_back(v);
     }
     // ---- monitors over the recorded history ----
@@ -279,8 +366,8 @@ int main(int argc, char** argv) {
       for (auto& kv : pc) { if (kv.second > 1) counts = false; if (!oc.count(kv.first)) conserve = false; }
     }
     for (auto op : all) {   // reported counts agree with the callbacks that ran
-      if (strchr("PNpnXH", op->k) && op->cnt != op->pushed_cnt) counts = false;
-      if (strchr("OMomUY", op->k) && op->cnt != op->popped.size() - 0 && op->k != 'Y') counts = false;
+      if (strchr("PNpnXHh", op->k) && op->cnt != op->pushed_cnt) counts = false;
+      if (strchr("OMomUYg", op->k) && op->cnt != op->popped.size() - 0 && op->k != 'Y') counts = false;
       if (op->k == 'Y' && op->popped.size() != op->n) counts = false;
       if (strchr("PONMXYH", op->k) && op->cnt != op->n) counts = false;
       if (op->cnt > op->n && !strchr("DA", op->k)) counts = false;
@@ -297,7 +384,7 @@ int main(int argc, char** argv) {
       }
     }
     for (auto op : all) {
-      bool is_try = strchr("pnom", op->k) != nullptr;
+      bool is_try = strchr("pnomgh", op->k) != nullptr;
       if (is_try && op->cnt < op->n) {
         bool overlapped = false; long long size_at = 0;
         for (auto x : all) {
@@ -307,7 +394,7 @@ int main(int argc, char** argv) {
           overlapped = true;
         }
         if (!overlapped) {
-          if (strchr("pn", op->k)) { if (size_at + (long long)op->cnt < (long long)cap) tryjust = false; }
+          if (strchr("pnh", op->k)) { if (size_at + (long long)op->cnt < (long long)cap) tryjust = false; }
           else { if (size_at - (long long)op->cnt > 0) tryjust = false; }
         }
       }
@@ -327,7 +414,7 @@ int main(int argc, char** argv) {
         // case completed later pushes are not yet poppable (the property allows a short count when an op overlaps)
         bool push_overlaps = false;
         for (auto x : all)
-          if (x != op && strchr("PpNnXYH", x->k) && x->b != 0 && x->b < op->e && (!x->done || x->e > op->b)) push_overlaps = true;
+          if (x != op && strchr("PpNnXYHh", x->k) && x->b != 0 && x->b < op->e && (!x->done || x->e > op->b)) push_overlaps = true;
         long long want = std::min<long long>((long long)op->n, size_at);
         if (!push_overlaps && (long long)op->cnt < want) avail = false;
       }
@@ -341,7 +428,7 @@ int main(int argc, char** argv) {
       for (size_t t = 0; t < threads.size(); ++t)
         for (auto& o : threads[t]) {
           if (strchr("XY", o.k)) single = false;
-          if (strchr("OoMmUD", o.k)) { if (tc >= 0 && tc != (int)t) single = false; tc = (int)t; }
+          if (strchr("OoMmUDg", o.k)) { if (tc >= 0 && tc != (int)t) single = false; tc = (int)t; }
         }
       if (single && tc >= 0) {
         std::map<uint64_t, const Op*> pusher;
